@@ -217,6 +217,73 @@ def marker_stream(r, pfx):
     return key, encode_pipeline(pre) + junk + encode_pipeline(post)
 
 
+# ----------------------------------------------------------------------------- C02 length boundaries
+
+def boundary_lengths(tier):
+    """argument lengths at which a reader that works in pieces can go wrong: around every power of
+    two from 2^9 to 2^20 (thorough 2^21), around the multiples of bufio's 4096-byte buffer, around the
+    multiples of 2^15 / 2^16"""
+    L = set()
+    top = 20 if tier == "quick" else 21
+    for k in range(9, top + 1):
+        for o in ((-2, -1, 0, 1, 2) if k <= 17 or tier != "quick" else (-1, 0, 1)):
+            L.add(2 ** k + o)
+    for m in range(1, 10):
+        for o in (-2, -1, 0, 1, 2):
+            L.add(4096 * m + o)
+    for m in range(1, 9 if tier == "quick" else 17):
+        for o in (-2, -1, 0, 1, 2):
+            L.add(32768 * m + o)
+    return sorted(L)
+
+
+ENDINGS = [b"\r\n", b"\r", b"\n", b"z"]
+
+
+def boundary_payload(r, n, ending):
+    """n bytes, full of CRLF pairs and header-looking fragments, ending in `ending`"""
+    unit = bytes(r.randrange(256) for _ in range(61)) + b"\r\n$3\r\nab\r\n*1\r\n"
+    b = (unit * (n // len(unit) + 1))[:n]
+    if len(ending) <= n:
+        b = b[:n - len(ending)] + ending
+    return b
+
+
+def boundary_case(r, i, n, ending):
+    """(stream, chunk spec): <small command> SET k <n bytes> PING x, read whole, in 4096 / 32768 /
+    odd-sized pieces, and with cuts placed in the bulk header, at the first payload byte, one
+    byte before the end of the payload, before CR, between CR and LF and after LF"""
+    key = b"b%d:k" % i
+    head = encode_cmd([b"PING", b"a"]) if i % 3 == 0 else b""
+    val = boundary_payload(r, n, ending)
+    pre = head + b"*3\r\n$3\r\nSET\r\n$%d\r\n%s\r\n" % (len(key), key)
+    hdr = b"$%d\r\n" % n
+    tail = encode_cmd([b"PING", b"x\r\n"])
+    s = pre + hdr + val + b"\r\n" + tail
+    p0 = len(pre) + len(hdr)          # first payload byte
+    p1 = p0 + n                       # the CR of the terminator
+    cuts = sorted(set(c for c in (len(pre) + 1, p0 - 1, p0, p0 + 1, p1 - 1, p1, p1 + 1, p1 + 2, p1 + 3) if 0 < c < len(s)))
+    sizes, last = [], 0
+    for c in cuts:
+        sizes.append(c - last)
+        last = c
+    sizes.append(len(s) - last)
+    odd = r.choice([1000, 4095, 4097, 8191, 32767, 32769, 50000, 65537])
+    spec = "x:one|f4096|f32768|f%d|c%s" % (odd, ",".join(map(str, sizes)))
+    return s, spec, key, val
+
+
+def boundary_cases(r, tier):
+    out = []
+    for i, n in enumerate(boundary_lengths(tier)):
+        special = (n % 32768 in (0, 32767)) or (n & (n - 1)) == 0 or ((n + 1) & n) == 0
+        ends = [b"\r\n", b"z"] if special else [ENDINGS[i % 4]]
+        for j, e in enumerate(ends):
+            s, spec, key, val = boundary_case(r, 10 * i + j, n, e)
+            out.append(("b%d_%d%s" % (n, j, ""), s, spec, key, val))
+    return out
+
+
 # ----------------------------------------------------------------------------- C03 programs
 
 class Ctx:
